@@ -71,6 +71,8 @@ class BBoxInterp(RelabelInterp):
         if name == "numpy.any":
             img = kwargs.get("a", args[0] if args else None)
             ax = kwargs.get("axis", args[1] if len(args) > 1 else None)
+            if isinstance(img, ImgV) and ax is None and not (set(kwargs) - {"a"}):
+                return True  # the image has foreground (lo..hi exists on every axis)
             if isinstance(img, ImgV):
                 axs = (ax,) if isinstance(ax, int) else tuple(ax) if isinstance(ax, (tuple, list)) else None
                 if axs is not None:
@@ -113,6 +115,36 @@ class BBoxInterp(RelabelInterp):
         return super().binop_hook(op, l, r, node)
 
     def subscript_hook(self, base, idx, node):
+        if isinstance(base, ImgV):
+            # a view cut by slices: keeps all foreground iff every cut axis keeps [lo, hi]; indices
+            # along a cut axis are then relative to the cut's start
+            items = list(idx) if isinstance(idx, tuple) else [idx]
+            if len(items) <= base.n and all(isinstance(x, Tagged) and x.name == "slice" for x in items):
+                v = ImgV.__new__(ImgV)
+                v.n, v.lo, v.hi, v.shape = base.n, list(base.lo), list(base.hi), list(base.shape)
+                for j, sl in enumerate(items):
+                    a = list(sl.args) + [None] * (3 - len(sl.args))
+                    if len(sl.args) == 1:
+                        a = [None, sl.args[0], None]
+                    start, stop, step = a[0], a[1], a[2]
+                    if step not in (None, 1):
+                        raise Undecided("strided view of the image")
+                    if start is None and stop is None:
+                        continue
+                    sp = self.lv(start).poly if start is not None and self.lv(start) is not None else (Poly() if start is None else None)
+                    ep = self.lv(stop).poly if stop is not None and self.lv(stop) is not None else (base.shape[j] if stop is None else None)
+                    if sp is None or ep is None:
+                        raise Undecided("view of the image with unmodelled bounds")
+                    from ..symint import decide_cmp as _dc
+
+                    keeps_lo, _ = _dc("<=", sp, base.lo[j], True)
+                    keeps_hi, _ = _dc(">=", ep, base.hi[j] + Poly.const(1), True)
+                    if keeps_lo is not True or keeps_hi is not True:
+                        raise Undecided(f"view of the image may cut foreground along axis {j}")
+                    v.lo[j] = base.lo[j] - sp
+                    v.hi[j] = base.hi[j] - sp
+                    v.shape[j] = ep - sp
+                return v
         if isinstance(base, IdxArr):
             if isinstance(idx, list) and idx == [0, -1]:
                 return [LV(base.img.lo[base.axis]), LV(base.img.hi[base.axis])]
@@ -365,6 +397,11 @@ class _ArithArr:
         self.op, self.l, self.r = op, l, r
 
 
+class _BitOrArr:
+    def __init__(self, l, r):
+        self.l, self.r = l, r
+
+
 class _ShapeV:
     def __init__(self, side):
         self.side = side
@@ -454,9 +491,16 @@ def check_crop_mask(ctx: Ctx):
             if self.prog.is_anchor(name, "utils.numpy_utils:_get_bbox_nd"):
                 self.root.bbox_args.append((args[0] if args else kwargs.get("img"), node))
                 return Sym("BBOX")
+            # ufunc spellings of array arithmetic / bitwise or on the label arrays
+            if name in ("numpy.add", "numpy.multiply", "numpy.subtract") and len(args) == 2 and not kwargs and isinstance(args[0], AArr) and isinstance(args[1], AArr):
+                return _ArithArr({"add": "Add", "multiply": "Mult", "subtract": "Sub"}[name.split(".")[1]], args[0], args[1])
+            if name in ("numpy.bitwise_or", "numpy.maximum") and len(args) == 2 and not kwargs and isinstance(args[0], AArr) and isinstance(args[1], AArr) and not args[0].casts and not args[1].casts:
+                return _BitOrArr(args[0], args[1])
             return super().external_call(name, args, kwargs, node)
 
         def binop_hook(self, op, l, r, node):
+            if isinstance(op, ast.BitOr) and isinstance(l, AArr) and isinstance(r, AArr) and not l.casts and not r.casts:
+                return _BitOrArr(l, r)  # bitwise or of the labels: zero exactly where both are zero
             if isinstance(op, ast.BitOr):
                 u = self._union([l, r])
                 if u is not None:
@@ -466,6 +510,9 @@ def check_crop_mask(ctx: Ctx):
             return super().binop_hook(op, l, r, node)
 
         def compare_hook(self, op, l, r, node):
+            if isinstance(l, _BitOrArr) and r == 0 and isinstance(op, (ast.NotEq, ast.Gt)):
+                # a | b (or max(a, b)) of unsigned labels is non-zero exactly where one of them is
+                return _UnionMask([AMask(l.l, "nonzero"), AMask(l.r, "nonzero")])
             if isinstance(l, _ArithArr) and r == 0 and isinstance(op, (ast.NotEq, ast.Gt)):
                 # (a + b) != 0 on label arrays: in the arrays' own unsigned dtype the sum of two
                 # labels can wrap to 0 (128 + 128 in uint8), a product or difference can vanish
